@@ -626,7 +626,10 @@ type runner struct {
 	mu       sync.Mutex
 }
 
-const gcWatchdog = 300 * time.Second
+const gcWatchdog = 15 * time.Second
+
+// every single operation and check point (they take milliseconds)
+const opWatchdog = 20 * time.Second
 
 // confirmHang drives a fresh store through the history so far (check points left out);
 // true if its last operation (the GC) times out again.
@@ -642,7 +645,11 @@ func (r *runner) confirmHang() bool {
 			continue
 		}
 		c.h.Ops = append(c.h.Ops, op)
-		c.exec(op)
+		if op[0] == '&' {
+			c.batch(op)
+		} else {
+			c.execWatched(op)
+		}
 		if c.hung {
 			return true
 		}
@@ -655,13 +662,40 @@ type strayFile struct {
 	path string
 }
 
+// execWatched runs one operation under a watchdog: no operation of the store may wedge the
+// check.  A timeout is reported when a fresh store driven through the same history wedges again.
+func (r *runner) execWatched(op string) string {
+	done := make(chan string, 1)
+	go func() { done <- r.exec(op) }()
+	select {
+	case res := <-done:
+		return res
+	case <-time.After(opWatchdog):
+		r.hung = true
+		if !r.confirming && r.confirmHang() {
+			r.fail("op-wedge", fmt.Sprintf("operation %s did not return within %v, twice (fresh store, same history)", op, opWatchdog))
+		} else if !r.confirming {
+			run.Count("op-watchdog-fired-not-confirmed(case dropped)")
+			r.dropped = true
+		}
+		return "hang"
+	}
+}
+
 func (r *runner) setSynced(v bool) {
 	r.mu.Lock()
 	r.synced = v
 	r.mu.Unlock()
 }
 
+// a confirmed wedge of the store ends the run (every later history would wedge the same way);
+// the failure and its replay are recorded
+var wedges int
+
 func (r *runner) fail(sig, msg string) {
+	if sig == "gc-hang" || strings.HasSuffix(sig, "-wedge") {
+		wedges++
+	}
 	if r.unjudged && sig != "gc-hang" {
 		return
 	}
@@ -1071,7 +1105,7 @@ func (r *runner) do(op string) {
 		r.batch(op)
 		return
 	}
-	res := r.exec(op)
+	res := r.execWatched(op)
 	r.h.caseOps = append(r.h.caseOps, op)
 	r.out = append(r.out, res)
 	if op[0] == 'W' || op[0] == 'M' {
@@ -1585,8 +1619,11 @@ func main() {
 		return
 	}
 	n := run.Scale(1000, 8000)
-	for i := 0; i < n; i++ {
+	for i := 0; i < n && wedges == 0; i++ {
 		generateHistory(run.Seed, i, run.Thorough())
+	}
+	if wedges > 0 {
+		return
 	}
 	// internal/fs/tarfs on its own (Model/TarFS.v)
 	trnd := common.NewRand(common.NewRand(run.Seed).U64() ^ 0x7a7f5)
